@@ -3,6 +3,7 @@
 (* An estimator is either unfitted or fitted on data with mf features (and, for kernel    *)
 (* transformers, nf training samples).  Calls:                                            *)
 (*    Fit(d)        d in {"A", "B"}: data sets with different numbers of samples/features  *)
+(*    Clone / Reload  sklearn.base.clone (unfitted copy) / pickle round trip (same state)       *)
 (*    Use(d)        a use call (transform / predict / score_samples / ...) on new data      *)
 (*                  whose width is that of data set d                                       *)
 (* Expected outcome of every call in every history of length <= MaxLen:                    *)
@@ -22,11 +23,15 @@ Init == h = <<>> /\ st = "none" /\ out = <<>>
 Fit(d) == /\ h' = Append(h, <<"fit", d>>) /\ st' = d /\ out' = Append(out, "ok")
 Use(d) == /\ h' = Append(h, <<"use", d>>) /\ st' = st
           /\ out' = Append(out, IF st = "none" THEN "rejected" ELSE IF st # d THEN "rejected" ELSE "ok")
-Next == Len(h) < MaxLen /\ \E d \in Data : Fit(d) \/ Use(d)
+\* the two standard ways of copying an estimator: sklearn.base.clone gives an UNFITTED estimator with the same
+\* hyper-parameters, a pickle round trip gives an estimator in the SAME state (the history continues on the copy)
+Clone == /\ h' = Append(h, <<"clone", "-">>) /\ st' = "none" /\ out' = Append(out, "ok")
+Reload == /\ h' = Append(h, <<"reload", "-">>) /\ st' = st /\ out' = Append(out, "ok")
+Next == Len(h) < MaxLen /\ ((\E d \in Data : Fit(d) \/ Use(d)) \/ (Len(h) > 0 /\ (Clone \/ Reload)))
 Spec == Init /\ [][Next]_vars
 \* design-level facts
 OnlyFittedUseSucceeds == \A i \in 1..Len(h) : (h[i][1] = "use" /\ out[i] = "ok") =>
-                            \E j \in 1..i - 1 : h[j] = <<"fit", h[i][2]>> /\ \A l \in j + 1..i - 1 : h[l][1] # "fit"
+                            \E j \in 1..i - 1 : h[j] = <<"fit", h[i][2]>> /\ \A l \in j + 1..i - 1 : h[l][1] \notin {"fit", "clone"}
 Emit == (Len(h) > 0 /\ h[Len(h)][1] = "use") =>
             PrintT(ToJson([k |-> "H", hist |-> [i \in 1..Len(h) |-> [op |-> h[i][1], d |-> h[i][2], out |-> out[i]]]]))
 =================================================================================
